@@ -19,6 +19,7 @@ import slimta.edge.wsgi as ewsgi  # noqa: E402
 from slimta.edge import Edge  # noqa: E402
 from slimta.edge.smtp import SmtpSession  # noqa: E402
 from slimta.edge.wsgi import WsgiEdge  # noqa: E402
+from slimta.policy import QueuePolicy  # noqa: E402
 from slimta.policy.split import RecipientSplit, RecipientDomainSplit  # noqa: E402
 from slimta.queue import Queue, QueueError  # noqa: E402
 from slimta.queue.dict import DictStorage  # noqa: E402
@@ -31,6 +32,20 @@ from slimta.smtp.server import Server  # noqa: E402
 ewsgi.PtrLookup = sdrv._NoPtr
 
 
+def _sess(envelope):
+    import re
+    m = re.match(r's(\d+)@', envelope.sender or '')
+    return int(m.group(1)) if m else 1
+
+
+class YieldPolicy(QueuePolicy):
+    """a policy that does I/O: other greenlets run while it is being applied"""
+
+    def apply(self, envelope):
+        gevent.sleep(0)
+        gevent.sleep(0)
+
+
 class FStore(DictStorage):
     def __init__(self, log, fail, slow):
         DictStorage.__init__(self)
@@ -40,7 +55,7 @@ class FStore(DictStorage):
     def write(self, envelope, timestamp):
         self.n += 1
         i = self.n
-        self.log.append({'t': 'write_start', 'i': i})
+        self.log.append({'t': 'write_start', 'i': i, 's': _sess(envelope), 'n': len(envelope.recipients)})
         if i in self.slow:
             ev = Event()
             self.gates.append(ev)
@@ -49,7 +64,7 @@ class FStore(DictStorage):
             gevent.sleep(0)
         kind = self.fail.get(i)
         if kind:
-            self.log.append({'t': 'write_end', 'i': i, 'ok': False})
+            self.log.append({'t': 'write_end', 'i': i, 'ok': False, 's': _sess(envelope)})
             e = QueueError('scripted')
             if kind == 'reply':
                 e.reply = Reply('452', '4.3.1 scripted storage failure')
@@ -57,7 +72,7 @@ class FStore(DictStorage):
                 raise ValueError('storage blew up')
             raise e
         r = DictStorage.write(self, envelope, timestamp)
-        self.log.append({'t': 'write_end', 'i': i, 'ok': True})
+        self.log.append({'t': 'write_end', 'i': i, 'ok': True, 's': _sess(envelope)})
         return r
 
 
@@ -67,14 +82,28 @@ class SRelay(Relay):
         self.log, self.result = log, result
 
     def attempt(self, env, attempts):
-        self.log.append({'t': 'relay', 'result': self.result})
-        if self.result == 'whole_ok':
-            return None
-        if self.result == 'raised':
-            raise TransientRelayError('down')
-        ok = self.result == 'map_all_ok'
         n = len(env.recipients)
-        return {r: (Reply('250', '2.0.0 ok') if ok or i < n - 1 else PermanentRelayError('no')) for i, r in enumerate(env.recipients)}
+        res = self.result
+        if res == 'whole_ok':
+            outs = ['ok']
+        elif res == 'raised':
+            outs = ['T']
+        elif res == 'map_all_ok':
+            outs = ['ok'] * n
+        elif res == 'map_some_failed':
+            outs = ['ok'] * (n - 1) + ['P']
+        else:                                  # 'map:oTo' / 'seq:oTo': one letter per recipient
+            outs = [{'o': 'ok', 'T': 'T', 'P': 'P'}[c] for c in res.split(':')[1]][:n]
+        self.log.append({'t': 'relay', 'result': res.split(':')[0], 's': _sess(env), 'outs': outs})
+        if res == 'whole_ok':
+            return None
+        if res == 'raised':
+            raise TransientRelayError('down')
+        vals = [Reply('250', '2.0.0 ok') if o == 'ok' else (PermanentRelayError('no') if o == 'P' else TransientRelayError('later'))
+                for o in outs]
+        if res.startswith('seq'):
+            return vals
+        return dict(zip(env.recipients, vals))
 
 
 def make_queue(log, cfg):
@@ -83,7 +112,7 @@ def make_queue(log, cfg):
     st = FStore(log, cfg['fail'], cfg['slow'])
     q = Queue(st, None)
     for p in cfg['policies']:
-        q.add_policy({'RS': RecipientSplit, 'DS': RecipientDomainSplit}[p]())
+        q.add_policy({'RS': RecipientSplit, 'DS': RecipientDomainSplit, 'Y': YieldPolicy}[p]())
     return q, st
 
 
@@ -94,22 +123,32 @@ def smtp_case(cfg):
     log = []
     q, st = make_queue(log, cfg)
     edge = Edge(q, 'edge.example')
-    sock = sdrv.MemSock(log)
-    handlers = SmtpSession(('192.0.2.9', 999), None, edge.handoff)
-    server = Server(sock, handlers, ('192.0.2.9', 999))
-    g = gevent.spawn(lambda: _safe(server.handle))
+    ns = cfg.get('nsess', 1)
+    socks, gs, marks, seen = [], [], [], []
+    for k in range(ns):
+        sock = sdrv.MemSock(log)
+        handlers = SmtpSession(('192.0.2.9', 999 + k), None, edge.handoff)
+        server = Server(sock, handlers, ('192.0.2.9', 999 + k))
+        gs.append(gevent.spawn(lambda server=server: _safe(server.handle)))
+        socks.append(sock)
     vt.settle()
-    lines = [b'EHLO c\r\n', b'MAIL FROM:<s@x.example>\r\n'] + [b'RCPT TO:<%s>\r\n' % r.encode() for r in RCPTS[:cfg['nrcpt']]] + [b'DATA\r\n']
-    for ln in lines:
-        sock.feed(ln)
-        vt.settle()
-    mark = len(sock.out)
-    sock.feed(b''.join(DataSender(b'Subject: t\r\n\r\nbody\r\n')))
+    for k, sock in enumerate(socks):
+        lines = [b'EHLO c\r\n', b'MAIL FROM:<s%d@x.example>\r\n' % (k + 1)] + \
+                [b'RCPT TO:<%s>\r\n' % r.encode() for r in RCPTS[:cfg['nrcpt']]] + [b'DATA\r\n']
+        for ln in lines:
+            sock.feed(ln)
+            vt.settle()
+        marks.append(len(sock.out))
+        seen.append(0)
+    for sock in socks:       # all bodies arrive before anyone runs: the sessions hand off concurrently
+        sock.feed(b''.join(DataSender(b'Subject: t\r\n\r\nbody\r\n')))
     vt.settle()
-    _release(st, sock, mark, log)
-    sock.shutdown_peer()
+    _release(st, socks, marks, seen, log)
+    for sock in socks:
+        sock.shutdown_peer()
     vt.settle()
-    g.kill(block=False)
+    for g in gs:
+        g.kill(block=False)
     return log
 
 
@@ -118,21 +157,21 @@ def _codes(out):
     return [int(m.group(1)) for m in re.finditer(rb'(?m)^(\d\d\d) ', out)]
 
 
-def _release(st, sock, mark, log):
+def _release(st, socks, marks, seen, log):
     # slow writes: look at the wire before and after each one is allowed to finish
-    seen = 0
+    def look():
+        for k, sock in enumerate(socks):
+            cs = _codes(sock.out[marks[k]:])
+            for c in cs[seen[k]:]:
+                log.append({'t': 'reply', 'code': c, 's': k + 1})
+            seen[k] = len(cs)
     for _ in range(8):
-        cs = _codes(sock.out[mark:])
-        for c in cs[seen:]:
-            log.append({'t': 'reply', 'code': c})
-        seen = len(cs)
+        look()
         if st is None or not st.gates:
             break
         st.gates.pop(0).set()
         vt.settle()
-    cs = _codes(sock.out[mark:])
-    for c in cs[seen:]:
-        log.append({'t': 'reply', 'code': c})
+    look()
 
 
 def _safe(fn):
@@ -147,23 +186,24 @@ def wsgi_case(cfg):
     q, st = make_queue(log, cfg)
     edge = WsgiEdge(q, 'edge.example')
     body = b'Subject: t\r\n\r\nbody\r\n'
-    environ = {'REQUEST_METHOD': 'POST', 'PATH_INFO': '/', 'CONTENT_TYPE': 'message/rfc822', 'CONTENT_LENGTH': str(len(body)),
-               'wsgi.input': io.BytesIO(body), 'REMOTE_ADDR': '192.0.2.9', 'wsgi.url_scheme': 'http',
-               'HTTP_X_EHLO': 'c', 'HTTP_X_ENVELOPE_SENDER': b64encode(b's@x.example').decode(),
-               'HTTP_X_ENVELOPE_RECIPIENT': ', '.join(b64encode(r.encode()).decode() for r in RCPTS[:cfg['nrcpt']])}
-    status = []
+    gs = []
+    for k in range(cfg.get('nsess', 1)):
+        environ = {'REQUEST_METHOD': 'POST', 'PATH_INFO': '/', 'CONTENT_TYPE': 'message/rfc822', 'CONTENT_LENGTH': str(len(body)),
+                   'wsgi.input': io.BytesIO(body), 'REMOTE_ADDR': '192.0.2.9', 'wsgi.url_scheme': 'http',
+                   'HTTP_X_EHLO': 'c', 'HTTP_X_ENVELOPE_SENDER': b64encode(b's%d@x.example' % (k + 1)).decode(),
+                   'HTTP_X_ENVELOPE_RECIPIENT': ', '.join(b64encode(r.encode()).decode() for r in RCPTS[:cfg['nrcpt']])}
 
-    def start_response(st_, headers):
-        status.append(int(st_.split()[0]))
-        log.append({'t': 'reply', 'code': int(st_.split()[0])})
-    g = gevent.spawn(lambda: _safe(lambda: edge(environ, start_response)))
+        def start_response(st_, headers, k=k):
+            log.append({'t': 'reply', 'code': int(st_.split()[0]), 's': k + 1})
+        gs.append(gevent.spawn(lambda environ=environ, start_response=start_response: _safe(lambda: edge(environ, start_response))))
     vt.settle()
     for _ in range(8):
         if st is None or not st.gates:
             break
         st.gates.pop(0).set()
         vt.settle()
-    g.kill(block=False)
+    for g in gs:
+        g.kill(block=False)
     return log
 
 
@@ -171,6 +211,8 @@ def nenv(policies, nrcpt):
     rc = RCPTS[:nrcpt]
     groups = [rc]
     for p in policies:
+        if p == 'Y':
+            continue
         new = []
         for g in groups:
             if p == 'RS':
@@ -204,6 +246,19 @@ def main():
     for relay in ('whole_ok', 'map_all_ok', 'map_some_failed', 'raised'):
         for nrcpt in (1, 3):
             cases.append(dict(proxy=True, policies=[], nrcpt=nrcpt, nenv=1, fail={}, slow=[], relay=relay))
+    # per-recipient relay results in every order of {ok, transient, permanent}, as a mapping and as a sequence
+    for nrcpt in (1, 2, 3):
+        for pat in itertools.product('oTP', repeat=nrcpt):
+            for shape in ('map', 'seq'):
+                cases.append(dict(proxy=True, policies=[], nrcpt=nrcpt, nenv=1, fail={}, slow=[], relay=shape + ':' + ''.join(pat)))
+    # two (three) clients hand their messages to the same queue while a policy that does I/O is being applied
+    for policies in (['Y'], ['Y', 'RS'], ['RS', 'Y'], ['Y', 'DS', 'RS'], ['DS', 'Y', 'RS', 'Y']):
+        for nrcpt in (1, 3):
+            k = nenv(policies, nrcpt)
+            for nsess in (2, 3):
+                for fail in ({}, {1: 'reply'}, {k + 1: 'noreply'}):
+                    for slow in ([], [1], [k + 1]):
+                        cases.append(dict(proxy=False, policies=policies, nrcpt=nrcpt, nenv=k, fail=fail, slow=slow, relay='none', nsess=nsess))
     for cfg in cases:
         for edge in ('smtp', 'wsgi'):
             idx += 1
@@ -212,8 +267,9 @@ def main():
             ev = (smtp_case if edge == 'smtp' else wsgi_case)(cfg)
             stats['executions'] += 1
             jc = dict(cfg)
+            jc.setdefault('nsess', 1)
             jc['fail'] = {str(k): v for k, v in cfg['fail'].items()}
-            f.write(json.dumps({'id': shard + n * nshards, 'cls': edge + ('-proxy' if cfg['proxy'] else '') + ('-split' if cfg['nenv'] > 1 else ''),
+            f.write(json.dumps({'id': shard + n * nshards, 'cls': edge + ('-proxy' if cfg['proxy'] else '') + ('-split' if cfg['nenv'] > 1 else '') + ('-conc' if cfg.get('nsess', 1) > 1 else ''),
                                 'cfg': jc, 'ev': ev}, separators=(',', ':')) + '\n')
             n += 1
     f.write(json.dumps({'summary': stats}) + '\n')
